@@ -21,6 +21,8 @@ def attribute(run, line, verdict):
         k = ev.get("e")
         if ev.get("self", 1) != 1:
             return "C11"          # a running unit reads a state other than RUNNING for itself
+        if ev.get("u") in cancelled and k in ("Resumed", "Back", "Yield", "YieldTo", "Suspend", "Finish") and scn == "migrate":
+            return "C12"          # a unit whose cancellation was requested runs on past its next scheduling point
         if k in ("Ctx", "Overlap") or (k == "Start" and ev.get("sp16", 0) != 0):
             return "C02"          # registers / FP control state / stack alignment
         if k == "Ledger":
